@@ -10,7 +10,10 @@ import RdfModel.Props.C02Doc
 #print axioms RdfModel.C02.plain_doc_iso
 #print axioms RdfModel.C02.tripleOfStmt_stmtOf
 #print axioms RdfModel.C02.new_pm_agree
+#print axioms RdfModel.C02.resources_doc_roundtrip_partial
+#print axioms RdfModel.C02.flatTriples_newTriples
 #print axioms RdfModel.C02.typed_list_witness
 #print axioms RdfModel.C02.Example.cfg_ok
 #print axioms RdfModel.C02.Example.label_ok
 #print axioms RdfModel.C02.Example.ts_ok
+#print axioms RdfModel.C02.Example.res_ok
